@@ -82,6 +82,10 @@ class Evaluator:
             if v[0] == "tuple" and e[1] < len(v[1]):
                 return v[1][e[1]]
             return UNKNOWN
+        if k == "up":
+            if v[0] == "closure" and e[1] < len(v[1]):
+                return v[1][e[1]]
+            return UNKNOWN
         return UNKNOWN
 
     def write_place(self, env, pl, val):
@@ -161,6 +165,8 @@ class Evaluator:
                 return enum(rv["adt"], rv["variant"], ops)
             if ak == "tuple":
                 return ("tuple", tuple(ops))
+            if ak in ("closure", "coroutine_closure"):
+                return ("closure", tuple(ops), rv.get("def"))
             return UNKNOWN
         if r == "bin":
             a = self.operand(env, rv["a"])
